@@ -13,13 +13,17 @@ package types
 //@ ensures result == spendable(Bank, addr)
 //@ func (k BankKeeper) GetAllBalances
 //@ trusted
+//@ spec bankM2A(b BankState, mod Str, to Addr, amt sdk.Coins) BankState uninterpreted
+//@ spec bankA2M(b BankState, from Addr, mod Str, amt sdk.Coins) BankState uninterpreted
 //@ func (k BankKeeper) SendCoinsFromAccountToModule
 //@ trusted
 //@ modifies Bank
+//@ ensures err == nil ==> Bank == bankA2M(old(Bank), senderAddr, recipientModule, amt)
 //@ ensures err != nil ==> Bank == old(Bank)
 //@ func (k BankKeeper) SendCoinsFromModuleToAccount
 //@ trusted
 //@ modifies Bank
+//@ ensures err == nil ==> Bank == bankM2A(old(Bank), senderModule, recipientAddr, amt)
 //@ ensures err != nil ==> Bank == old(Bank)
 
 //@ spec signingFee(o OtherState) sdk.Coins uninterpreted
